@@ -445,6 +445,13 @@ public:
       sandbox_list.erase(el_ref);
     }
 
+    {
+      // symbol addresses looked up for this incarnation must not be served to
+      // the next one (create_sandbox may bind a different library)
+      RLBOX_ACQUIRE_UNIQUE_GUARD(lock, func_ptr_cache_lock);
+      func_ptr_map.clear();
+    }
+
     sandbox_created.store(Sandbox_Status::NOT_CREATED);
     return this->impl_destroy_sandbox();
   }
